@@ -55,3 +55,13 @@ def veto_supported_le_m(case, fail):
 
 def is_alaska(case, fail):
     return case.get("rule") == "Alaska" or case.get("comp") == "Alaska"
+
+
+def fewer_ballots_than_voter_types(case, fail):
+    """Generators: N smaller than the number of blocs (or of the 2 x blocs bloc/crossover voter
+    types of AlternatingCrossover / CambridgeSampler)."""
+    if "params" not in case or "N" not in case:
+        return False
+    nb = len(case["params"]["slates"])
+    types = nb * (2 if case.get("model") in ("AlternatingCrossover", "CambridgeSampler") else 1)
+    return case["N"] < types
